@@ -39,7 +39,7 @@ ATOMS = ALPHABET + ["b", "x1", "`a b`", "`", "``", "{", "}", "{a+b}", "{a +", "f
                    "é", "名", "\t", "\n", "\x00", "\x0b", " ", "  ", "~~", "||", "|~", "[a~b]", "[[a~b]~c]", "]~", "=", "<", ">", "!", "@", "#", "$",
                    "&", ";", "?", "1e5", "1.", ".5", "00", "1_000", "0x1", "-0", "+0", "- 0", "f(``)", "f(`class`)", "I(`x`", "{`}", "`{`", "C(a, contr.treatment)",
                    "lambda", "class", "None", "a:b:c", "a*b", "(", ")", "log(d[0].x)", "f((a + b).real)", "{d[0].x}", "np.log(df['y'].values)",
-                   "f('a'.upper())", "{[i for i in a]}", "{lambda: 0}", "f(*a, **b)", "{a if b else c}", "~", "~", "~"]
+                   "**'2'", "^\"b\"", "**...", "**('x')", "**1e2", "**True", "**None", "f('a'.upper())", "{[i for i in a]}", "{lambda: 0}", "f(*a, **b)", "{a if b else c}", "~", "~", "~"]
 FLAGSETS = c01.FLAG_SUBSETS
 _PARSERS: dict = {}
 
